@@ -179,7 +179,10 @@ func MatrixTokenString(t *tape.Tape, label string, dims []string) string {
 			b.WriteString("{{" + ws[t.Draw(len(ws), label+":ws1")] + tok + ws[t.Draw(len(ws), label+":ws2")] + "}}")
 		case 5:
 			// near misses
-			b.WriteString([]string{"{matrix}", "{{ matrix .a}}", "{{matrixx}}", "{{matrix", "matrix}}", "{{ matrix. }}", "{{{matrix}}", "{{Matrix}}", "{{matrix.}}", "{{ m atrix }}"}[t.Draw(10, label+":near")])
+			near := []string{"{matrix}", "{{ matrix .a}}", "{{matrixx}}", "{{matrix", "matrix}}", "{{ matrix. }}", "{{{matrix}}", "{{Matrix}}", "{{matrix.}}", "{{ m atrix }}",
+				// other punctuation or letters where a dimension name would be: not tokens
+				"{{matrix." + d + "|upper}}", "{{ matrix." + d + ":latest }}", "{{matrix.c++}}", "{{matrix." + d + "/x}}", "{{matrix." + d + "," + d + "}}", "{{matrix.é}}", "{{matrix." + d + " | x}}", "{{matrix:" + d + "}}", "{{matrix." + d + "}", "{{matrix." + d + "@1}}", "{{matrix.$" + d + "}}", "{{matrix." + d + "\u00a0}}"}
+			b.WriteString(near[t.Draw(len(near), label+":near")])
 		case 6:
 			b.WriteString("{{{" + tok + "}}}")
 		case 7:
